@@ -131,7 +131,7 @@ func seq(n int) []int {
 	return s
 }
 
-const bound = 30 * time.Second
+const bound = 10 * time.Second
 
 type issued struct {
 	spec  CallSpec
